@@ -256,6 +256,7 @@ class Model:
     def select(self, opt, import_failed=()):
         """Expected tests per layer full name, in discovery order (before shuffling)."""
         accept_t = filtering_func(opt.get('t') or ['.'])
+        accept_m = filtering_func(opt.get('m') or ['.'])
         at_level = opt.get('at_level', 1)
         if opt.get('all'):
             at_level = sys.maxsize
@@ -269,7 +270,7 @@ class Model:
         accept_l = filtering_func(layer_pats) if layer_pats else (lambda n: True)
         by_layer = {}
         for d in self.discover():
-            if d['module'] in import_failed:
+            if d['module'] in import_failed or not accept_m(d['module']):
                 continue
             lvl = d['level']
             if only is None:
@@ -442,11 +443,11 @@ def argv(opt, src):
     if opt.get('non_unit'):
         a.append('-f')
     if 'at_level' in opt:
-        a += ['--at-level', str(opt['at_level'])]
+        a += ['--at-level=%d' % opt['at_level']]
     if opt.get('all'):
         a.append('--all')
     if opt.get('only_level') is not None:
-        a += ['--only-level', str(opt['only_level'])]
+        a += ['--only-level=%d' % opt['only_level']]
     if opt.get('v'):
         a.append('-' + 'v' * opt['v'])
     if opt.get('progress'):
